@@ -612,7 +612,11 @@ func runHistory(ops []op, r *core.Run) *core.Violation {
 }
 
 func (p Prop) Run(r *core.Run) *core.Violation {
-	n := 1 + r.T.Intn(30)
+	maxSteps := 30
+	if r.Tier == "thorough" {
+		maxSteps = 60
+	}
+	n := 1 + r.T.Intn(maxSteps)
 	var ops []op
 	mut, rt := 0, 0
 	h := fnv.New64a()
@@ -658,6 +662,10 @@ func (p Prop) Exhaustive(tier string, report func(string, uint64), fail func(*co
 		{kind: opRoundTripCedar},
 		{kind: opUnmarshalInPlace, doc: []int{1}, layout: []int{0}},
 	}
+	maxLen := 4
+	if tier == "thorough" {
+		maxLen = 5
+	}
 	var count uint64
 	var failed bool
 	sim := verifsim.NewSim(verifsim.NewTape(1), verifsim.NewTape(2))
@@ -669,6 +677,7 @@ func (p Prop) Exhaustive(tier string, report func(string, uint64), fail func(*co
 	rec = func(prefix []op) {
 		if len(prefix) > 0 {
 			count++
+			sim.Steps = 0 // the step budget is per history
 			if v := runHistory(prefix, dummy); v != nil && !failed {
 				failed = true
 				var s []string
@@ -678,7 +687,7 @@ func (p Prop) Exhaustive(tier string, report func(string, uint64), fail func(*co
 				fail(v, "enumerated history: "+strings.Join(s, "; "))
 			}
 		}
-		if len(prefix) == 4 {
+		if len(prefix) == maxLen {
 			return
 		}
 		for _, o := range alphabet {
@@ -686,5 +695,5 @@ func (p Prop) Exhaustive(tier string, report func(string, uint64), fail func(*co
 		}
 	}
 	rec(nil)
-	report("histories of length <= 4 over 8 operations (add, replace, add other id, remove x2, JSON round trip, Cedar round trip, UnmarshalJSON into the live set)", count)
+	report(fmt.Sprintf("histories of length <= %d over 8 operations", maxLen)+" (add, replace, add other id, remove x2, JSON round trip, Cedar round trip, UnmarshalJSON into the live set)", count)
 }
